@@ -94,8 +94,10 @@ func topicInit(t *Topic, join *ClientComMessage, h *Hub) {
 			}
 		}
 		if len(t.exit) > 0 {
-			msg := <-t.exit
-			msg.done <- true
+			// Not every stop request asks for a confirmation (e.g. the hub deleting the topic does not).
+			if msg := <-t.exit; msg.done != nil {
+				msg.done <- true
+			}
 		}
 
 		// The hub may have looked the topic up just before it was removed from the cache and queue
